@@ -99,11 +99,53 @@ func mkTagMap(c *canary, p *prng) (tagMap, []encrypt.PointerTag) {
 		m["list"] = []interface{}{map[string]interface{}{"name": c.prot(), "other": c.prot()}}
 		tags = append(tags, encrypt.PointerTag{Pointer: "/list/0/name", Classification: encrypt.SensitiveClassification})
 	}
+	// pointer tags to values two or more containers below the Taggable: through maps, a pointer to a
+	// map, a slice inside a nested map, a struct holding a map
+	deepVal := func() (string, encrypt.PointerTag) {
+		switch p.intn(3) {
+		case 0:
+			return c.pub(), encrypt.PointerTag{Classification: encrypt.PublicClassification}
+		case 1:
+			return c.prot(), encrypt.PointerTag{Classification: encrypt.SensitiveClassification, Filter: ops[p.intn(4)]}
+		}
+		return c.prot(), encrypt.PointerTag{Classification: encrypt.SecretClassification, Filter: ops[p.intn(4)]}
+	}
+	if p.chance(1, 3) {
+		v, t := deepVal()
+		m["deep"] = map[string]interface{}{"a": map[string]interface{}{"b": v, "o": c.prot()}, "o": c.prot()}
+		t.Pointer = "/deep/a/b"
+		tags = append(tags, t)
+	}
+	if p.chance(1, 4) {
+		v, t := deepVal()
+		pm := map[string]interface{}{"c": v, "o": c.prot()}
+		m["pm"] = &pm
+		t.Pointer = "/pm/c"
+		tags = append(tags, t)
+	}
+	if p.chance(1, 4) {
+		v, t := deepVal()
+		m["nl"] = map[string]interface{}{"l": []interface{}{map[string]interface{}{"c": v, "o": c.prot()}}}
+		t.Pointer = "/nl/l/0/c"
+		tags = append(tags, t)
+	}
+	if p.chance(1, 4) {
+		v, t := deepVal()
+		m["st"] = &dMapHolder{M: map[string]interface{}{"c": v, "o": c.prot()}, N: 1}
+		t.Pointer = "/st/M/c"
+		tags = append(tags, t)
+	}
 	for i := len(tags) - 1; i > 0; i-- {
 		j := p.intn(i + 1)
 		tags[i], tags[j] = tags[j], tags[i]
 	}
 	return m, tags
+}
+
+// a struct holding an (untagged) map, reached from a Taggable map through a pointer
+type dMapHolder struct {
+	M map[string]interface{}
+	N int
 }
 
 // a type listed in Filter.IgnoreTypes (as a pointer type), reached directly, as a map value and behind an
@@ -406,28 +448,45 @@ func deepShapes(p *prng, n int, st *stats, oracle func(string, ...any)) {
 				om = v[0].Attrs
 			}
 			for _, t := range curTags {
-				var cur interface{} = map[string]interface{}(om)
+				cur := reflect.ValueOf(map[string]interface{}(om))
 				okPath := true
 				for _, seg := range strings.Split(strings.TrimPrefix(t.Pointer, "/"), "/") {
-					if sl, isS := cur.([]interface{}); isS {
-						ix, cerr := strconv.Atoi(seg)
-						if cerr != nil || ix >= len(sl) {
-							okPath = false
-							break
-						}
-						cur = sl[ix]
-						continue
+					for cur.IsValid() && (cur.Kind() == reflect.Interface || cur.Kind() == reflect.Ptr) {
+						cur = cur.Elem()
 					}
-					mm, isM := cur.(map[string]interface{})
-					if !isM {
+					if !cur.IsValid() {
 						okPath = false
 						break
 					}
-					if cur, okPath = mm[seg]; !okPath {
+					switch cur.Kind() {
+					case reflect.Slice:
+						ix, cerr := strconv.Atoi(seg)
+						if cerr != nil || ix >= cur.Len() {
+							okPath = false
+						} else {
+							cur = cur.Index(ix)
+						}
+					case reflect.Map:
+						cur = cur.MapIndex(reflect.ValueOf(seg))
+						okPath = cur.IsValid()
+					case reflect.Struct:
+						cur = cur.FieldByName(seg)
+						okPath = cur.IsValid()
+					default:
+						okPath = false
+					}
+					if !okPath {
 						break
 					}
 				}
-				sv, isS := cur.(string)
+				for okPath && cur.IsValid() && cur.Kind() == reflect.Interface {
+					cur = cur.Elem()
+				}
+				var curI interface{}
+				if okPath && cur.IsValid() && cur.CanInterface() {
+					curI = cur.Interface()
+				}
+				sv, isS := curI.(string)
 				if !okPath || !isS {
 					continue
 				}
